@@ -283,9 +283,13 @@ GetAgents(m, tpl, hastag, tg) == SelectSeq(env[m], LAMBDA a : Match(a, tpl, hast
 MatchSet(m, tpl, hastag, tg)  == Range(GetAgents(m, tpl, hastag, tg))
 
 Leeway(l, al, ax) == WMax(l, al[ax])
-InBox(m, a, q, l, al, seam) ==
-    a \in DOMAIN pos /\ \A ax \in 1..3 : AxisDist(pos[a][ax], q[ax], world[m].ext[ax], seam) <= Leeway(l, al, ax)
-AgentsAt(m, q, l, al, seam) == SelectSeq(env[m], LAMBDA a : InBox(m, a, q, l, al, seam))
+\* qs = 1: query point and leeways in the world's own units; qs = 4: in quarter units (fractional queries in a grid world)
+InBoxQ(m, a, q, l, al, seam, qs) ==
+    a \in DOMAIN pos /\ \A ax \in 1..3 :
+        AxisDist(qs * pos[a][ax], q[ax], qs * world[m].ext[ax], seam) <= Leeway(l, al, ax)
+InBox(m, a, q, l, al, seam) == InBoxQ(m, a, q, l, al, seam, 1)
+AgentsAtQ(m, q, l, al, seam, qs) == SelectSeq(env[m], LAMBDA a : InBoxQ(m, a, q, l, al, seam, qs))
+AgentsAt(m, q, l, al, seam) == AgentsAtQ(m, q, l, al, seam, 1)
 \* what a positional query must answer; in a wrapping world the plain box is the known finding F5
 AgentsAtSpec(m, q, l, al) == AgentsAt(m, q, l, al, world[m].wrap)
 
